@@ -31,7 +31,7 @@ def run(R):
     for name in (L.FILE_EXEC, L.FOLLOW_EXEC):
         f = R.need_fn(name)
         sn = "::".join(f.spath.split("::")[-2:])
-        loops = [l for l in L.input_loops(f) if re.search(L.LINES_NEXT + "|" + L.FOLLOW_NEXT, short(l.next.name)) and l.ok]
+        loops = [l for l in L.input_loops(f) if L.is_line_loop(l) and l.ok]
         if len(loops) != 1:
             R.violation("C19.sample", sn + "|shape", "%s: expected one line loop" % f.path, [f.loc()])
             continue
@@ -50,6 +50,11 @@ def run(R):
         problems = []
         if not f.dominates(lp.some, ld.bb):
             problems.append(("load-before-read", "the flag is sampled before the line is read"))
+        else:
+            good, badb = PR.all_paths_hit(f, lp.some, [ld.bb])
+            if not good:
+                problems.append(("exit-before-sample", "between reading a line and sampling the flag the function can return (e.g. report a read error): "
+                                                       "an interrupted query would still report an error for a line it must not consume"))
         for c in PR.calls_matching(f, L.ENGINE_EXEC) + PR.calls_matching(f, L.PRINT):
             if c.bb in lp.body and not PR.dominated_by_edge(f, c.bb, sw, t_t):
                 problems.append(("late-sample|" + short(c.name).split("::")[-1],
